@@ -32,9 +32,16 @@ type vSvc struct{ name string }
 
 func (s *vSvc) Name() string { return s.name }
 
-var vApp *Flame
+var vApp, vAppFresh *Flame
 
+// VH_C05_setup builds the same application twice: one serves the whole
+// history of a path, the other only ever serves the request under observation.
 func VH_C05_setup() {
+	vApp = vBuildApp()
+	vAppFresh = vBuildApp()
+}
+
+func vBuildApp() *Flame {
 	f := NewWithLogger(io.Discard)
 	f.Use(Recovery())
 	f.Use(func(c Context) { // a logger-like middleware: reads the writer after the rest of the chain ran
@@ -70,22 +77,28 @@ func VH_C05_setup() {
 	f.Get("/m/{rest: **}", h)
 	f.Get("/o/?{opt}", h)
 	f.Get("/h", h).Headers("X-K", "v")
+	f.Get("/d/{id}", h).Headers("X-K", "v") // a constrained dynamic route with an unconstrained fallback
+	f.Get("/d/{rest: **}", func(c Context) string { return "fallback:" + c.Param("rest") })
 	f.Get("/n/{name}", h).Name("named")
 	f.Group("/g", func() {
 		f.Combo("/c").Get(h).Post(h)
 	}, func(c Context) {})
 	f.NotFound(func() string { return "nf" })
-	vApp = f
+	return f
 }
 
 func vServeOnce(path string, hasHdr bool, method string) (int, string) {
+	return vServeOn(vApp, path, hasHdr, method)
+}
+
+func vServeOn(app *Flame, path string, hasHdr bool, method string) (int, string) {
 	hdr := http.Header{}
 	if hasHdr {
 		hdr["X-K"] = []string{"v"}
 	}
 	spy := &vSpy{}
 	req := &http.Request{Method: method, URL: &url.URL{Path: path, RawQuery: "q=1"}, Header: hdr}
-	vApp.ServeHTTP(spy, req)
+	app.ServeHTTP(spy, req)
 	return spy.firstCode, string(spy.body)
 }
 
@@ -99,7 +112,18 @@ func VH_C05_request() {
 	if vx.Bool() {
 		method = "POST"
 	}
+	if vx.ParamInt("prior") == 1 {
+		// an earlier request for the same path with other headers / another method
+		pm := "GET"
+		if vx.Bool() {
+			pm = "POST"
+		}
+		vServeOnce(path, vx.Bool(), pm)
+	}
 	code1, body1 := vServeOnce(path, hasHdr, method)
+	// the same request on an application that has served nothing else
+	code0, body0 := vServeOn(vAppFresh, path, hasHdr, method)
+	vx.Assert(code1 == code0 && body1 == body0, "C05: a request's response does not depend on requests served before it (same answer as from a fresh application)")
 	// the same request again: same response (no state carried over between requests)
 	code2, body2 := vServeOnce(path, hasHdr, method)
 	vx.Assert(code1 == code2 && body1 == body2, "C05: a request's response does not depend on requests served before it")
